@@ -49,6 +49,7 @@ type Profile struct {
 }
 
 type genState struct {
+	curRet      int
 	r           *Rand
 	sp          *Spec
 	avail       []int // types that may be used as inputs (have a supplier or are designated arguments)
@@ -697,6 +698,7 @@ func genOnce(r *Rand, pkg string, prof Profile) *Spec {
 			}
 			g.names = g.names[1:]
 		}
+		g.curRet = ret
 		uses := g.variant(base, k)
 		inj.Items = g.group(uses, k)
 		g.sp.Injectors = append(g.sp.Injectors, inj)
@@ -828,6 +830,18 @@ func (g *genState) variant(base []Use, k int) []Use {
 		}
 	}
 	for i := range uses {
+		// the same provider bound to an interface in one injector and left unbound (or bound
+		// differently) in another injector of the same package, file or invocation
+		if len(uses[i].Bind) > 0 && k > 0 && r.Chance(1, 4) {
+			drop := r.Intn(len(uses[i].Bind))
+			nb := make([]int, 0, len(uses[i].Bind))
+			for j, b := range uses[i].Bind {
+				if j != drop || b == g.curRet {
+					nb = append(nb, b)
+				}
+			}
+			uses[i].Bind = nb
+		}
 		p := &g.sp.Providers[uses[i].Prov]
 		if p.Form == "value" {
 			continue
